@@ -31,6 +31,7 @@ import (
 )
 
 func TestMain(m *testing.M) {
+	heartbeat()
 	p2p.VerifSetSched(sched)
 	evid.Main(m, "C17")
 }
@@ -70,6 +71,7 @@ type attPlan struct {
 type callPlan struct {
 	Src      int       `json:"src"`
 	Dst      int       `json:"dst"`
+	Hole     int       `json:"black_hole,omitempty"` // > 0: the call addresses black hole #Hole instead of node Dst
 	PreUs    int       `json:"pre_us,omitempty"`
 	Cancel   bool      `json:"cancel,omitempty"`
 	CancelUs int       `json:"cancel_us,omitempty"`
@@ -86,6 +88,7 @@ type workload struct {
 	NConn     int         `json:"conns"`
 	TimeoutMs int         `json:"timeout_ms"`
 	Workers   int         `json:"workers"`
+	Holes     int         `json:"black_holes,omitempty"` // stalled-peer class: number of silent listeners dialled as peers
 	Calls     []callPlan  `json:"calls"`
 	Unsol     []unsolPlan `json:"unsolicited,omitempty"`
 	Force     bool        `json:"force,omitempty"` // directed reproduction: do not avoid known triggers
@@ -112,6 +115,9 @@ type attState struct {
 	lostEarly     bool // reply dropped (unknown ID) while !released and nothing delivered before: certain lost reply
 	foundAfterTO  bool
 	capHit        bool
+	answered      bool  // the handler returned its reply for this attempt ...
+	answerBeat    int64 // ... at this process heartbeat
+	timeoutBeat   int64 // heartbeat at which the attempt's timer fired
 	foundCh       chan struct{}
 	handledCh     chan struct{}
 	timeoutCh     chan struct{}
@@ -132,28 +138,36 @@ type callState struct {
 	done      chan struct{}
 	returned  bool
 	resp      p2p.Response
+	// stalled-peer class: heartbeat stall counter at start/end of the call; a black-hole call was outstanding on the
+	// requester when the call started or ended
+	stallsStart, stallsEnd int64
+	sawHole                bool
 }
 
 type caseState struct {
-	no      int64
-	w       *workload
-	cl      *cluster
-	T       time.Duration
-	mu      sync.Mutex
-	calls   []*callState
-	byGid   map[int64]*callState
-	byID    map[string]*attState
-	lastFnd map[int]*attState // per requester node: entry found most recently (onResponse holds resMu from there to delivery)
-	last    atomic.Int64
-	inHand  atomic.Int32
-	inCalls atomic.Int32
-	maxOver atomic.Int32
-	sent    atomic.Int64 // responses sent (handler + raw)
-	handled atomic.Int64 // responses seen by onResponse (found + unknown)
-	unkOth  atomic.Int64
-	misrte  atomic.Int64
-	closing chan struct{}
-	bg      atomic.Int32 // background senders (duplicates, unsolicited) still running; a plain counter: late handler runs may add while afterQuiescence waits
+	no         int64
+	w          *workload
+	cl         *cluster
+	T          time.Duration
+	mu         sync.Mutex
+	calls      []*callState
+	byGid      map[int64]*callState
+	byID       map[string]*attState
+	lastFnd    map[int]*attState // per requester node: entry found most recently (onResponse holds resMu from there to delivery)
+	last       atomic.Int64
+	inHand     atomic.Int32
+	inCalls    atomic.Int32
+	maxOver    atomic.Int32
+	sent       atomic.Int64 // responses sent (handler + raw)
+	handled    atomic.Int64 // responses seen by onResponse (found + unknown)
+	unkOth     atomic.Int64
+	misrte     atomic.Int64
+	closing    chan struct{}
+	holes      []*blackHole
+	holeOut    [maxConns]atomic.Int32 // calls to black holes outstanding per requester node
+	holeStarts [maxConns]atomic.Int32 // ... started so far
+	maxStreak  atomic.Int32           // longest run of failed resMu probes while such a call was outstanding
+	bg         atomic.Int32           // background senders (duplicates, unsolicited) still running; a plain counter: late handler runs may add while afterQuiescence waits
 }
 
 var (
@@ -266,6 +280,7 @@ func sched(point string, id string) {
 			return
 		}
 		a.timeoutFired = true
+		a.timeoutBeat = hbBeats.Load()
 		if !a.timeoutClosed {
 			a.timeoutClosed = true
 			close(a.timeoutCh)
@@ -429,6 +444,9 @@ func handle(node int, w p2p.ResponseWriter, req *p2p.Request) {
 		w.Write([]byte(tok))
 	}
 	cs.sent.Add(1)
+	cs.mu.Lock()
+	a.answered, a.answerBeat = true, hbBeats.Load()
+	cs.mu.Unlock()
 	n := pl.DupAfter
 	if pl.DupBefore && cs.w.dupsLate {
 		n++
@@ -469,26 +487,34 @@ type violation struct {
 }
 
 type verdict struct {
-	viol      []violation
-	incon     []string
-	wedged    bool
-	maxOver   int
-	nCalls    int
-	attempts  int
-	raceReg   int // replies handled before the requester started to wait (hook-ordered)
-	raceTO    int // replies handled for an attempt whose timer fired (either order)
-	foundTO   int // entry still present when the reply came although the timer had fired (the deadlock window)
-	suspects  int // reply found before the wait started, yet that attempt timed out
-	capHits   int
-	okN       int
-	remErrN   int
-	timeoutN  int
-	cancelN   int
-	otherN    int
-	dupsSent  int
-	unkOther  int64
-	otherErrs []string
-	wall      time.Duration
+	viol     []violation
+	incon    []string
+	wedged   bool
+	maxOver  int
+	nCalls   int
+	attempts int
+	raceReg  int // replies handled before the requester started to wait (hook-ordered)
+	raceTO   int // replies handled for an attempt whose timer fired (either order)
+	foundTO  int // entry still present when the reply came although the timer had fired (the deadlock window)
+	suspects int // reply found before the wait started, yet that attempt timed out
+	capHits  int
+	okN      int
+	remErrN  int
+	timeoutN int
+	cancelN  int
+	otherN   int
+	dupsSent int
+	unkOther int64
+	// stalled-peer class
+	stallCand    []string // suspects (need 3 of 3)
+	lockStreak   int
+	holeCalls    int
+	judged       int // pristine healthy calls judged (no process stall during the call)
+	judgeSkipped int // ... not judged because the heartbeat was late during the call
+	healthyBad   int
+	overlapHole  int // pristine healthy calls that overlapped an outstanding black-hole call on their node
+	otherErrs    []string
+	wall         time.Duration
 }
 
 func (v *verdict) add(sig, format string, a ...any) {
@@ -620,6 +646,14 @@ func runCase(w *workload) (*verdict, error) {
 	cs.touch()
 	setCase(cs)
 	defer setCase(nil)
+	if w.Holes > 0 {
+		if err := cs.startHoles(); err != nil {
+			evid.R.Inconclusive("infrastructure: cannot start black-hole listener, case skipped: %v", err)
+			return nil, err
+		}
+		defer cs.closeHoles()
+		go cs.lockSampler()
+	}
 	t0 := time.Now()
 	v := &verdict{nCalls: len(w.Calls)}
 
@@ -650,7 +684,21 @@ func runCase(w *workload) (*verdict, error) {
 						break
 					}
 				}
-				resp := cl.conns[c.plan.Src].RequestFrom(ctx, cl.ids[c.plan.Dst], proc, []byte(c.payload))
+				target := cl.ids[c.plan.Dst]
+				if c.plan.Hole > 0 {
+					target = cs.holes[c.plan.Hole-1].id
+					cs.holeOut[c.plan.Src].Add(1)
+					cs.holeStarts[c.plan.Src].Add(1)
+				}
+				saw := cs.holeOut[c.plan.Src].Load() > 0
+				h0 := cs.holeStarts[c.plan.Src].Load()
+				s0 := hbStalls.Load()
+				resp := cl.conns[c.plan.Src].RequestFrom(ctx, target, proc, []byte(c.payload))
+				s1 := hbStalls.Load()
+				saw = saw || cs.holeStarts[c.plan.Src].Load() != h0 // a black-hole call started on this node meanwhile
+				if c.plan.Hole > 0 {
+					cs.holeOut[c.plan.Src].Add(-1)
+				}
 				cs.inCalls.Add(-1)
 				if tm != nil {
 					tm.Stop()
@@ -658,6 +706,7 @@ func runCase(w *workload) (*verdict, error) {
 				cs.mu.Lock()
 				c.resp = resp
 				c.returned = true
+				c.stallsStart, c.stallsEnd, c.sawHole = s0, s1, saw
 				delete(cs.byGid, g)
 				cs.mu.Unlock()
 				close(c.done)
@@ -900,6 +949,7 @@ func (cs *caseState) evaluate(v *verdict, finished bool) {
 			v.okN++
 		}
 	}
+	cs.judgeStalled(v)
 }
 
 // ---- workload generator ----
@@ -954,6 +1004,9 @@ func drawAttempt(t *rapid.T, tUs int, first bool, label string) attPlan {
 }
 
 func drawWorkload(t *rapid.T) *workload {
+	if rapid.IntRange(0, 4).Draw(t, "class") == 0 {
+		return drawStalled(t)
+	}
 	w := &workload{}
 	w.NConn = rapid.IntRange(2, 3).Draw(t, "conns")
 	w.TimeoutMs = rapid.IntRange(20, 100).Draw(t, "timeoutMs")
@@ -1019,6 +1072,10 @@ func summarize(w *workload, v *verdict) map[string]any {
 	m := map[string]any{"conns": w.NConn, "timeout_ms": w.TimeoutMs, "workers": w.Workers, "calls": len(w.Calls), "unsolicited": len(w.Unsol),
 		"max_overlap": v.maxOver, "attempts": v.attempts, "raced_registration": v.raceReg, "raced_timeout": v.raceTO, "found_after_timeout_fired": v.foundTO,
 		"ok": v.okN, "remote_err": v.remErrN, "timeout": v.timeoutN, "cancelled": v.cancelN, "other_err": v.otherN, "raw_dups": v.dupsSent, "wedged": v.wedged}
+	if w.Holes > 0 {
+		m["black_holes"], m["black_hole_calls"], m["healthy_judged"], m["healthy_not_judged_process_stall"] = w.Holes, v.holeCalls, v.judged, v.judgeSkipped
+		m["healthy_overlapping_stalled_send"], m["max_failed_resmu_probes"] = v.overlapHole, v.lockStreak
+	}
 	k := len(w.Calls)
 	if k > 3 {
 		k = 3
@@ -1032,6 +1089,9 @@ func record(t fataler, kind string, w *workload, v *verdict) (knownHit bool) {
 	key, _ := json.Marshal(w)
 	races := v.raceReg + v.raceTO
 	nontrivial := v.maxOver >= 8 && races > 0
+	if w.Holes > 0 { // stalled-peer class: healthy calls overlapped a stalled send on their own node and were judged
+		nontrivial = v.maxOver >= 8 && v.overlapHole > 0 && v.judged > 0
+	}
 	labels := []string{kind, fmt.Sprintf("conns=%d", w.NConn)}
 	if v.maxOver >= 8 {
 		labels = append(labels, "overlap>=8")
@@ -1065,6 +1125,25 @@ func record(t fataler, kind string, w *workload, v *verdict) (knownHit bool) {
 	}
 	if v.suspects > 0 {
 		labels = append(labels, "case:found-before-wait-yet-timeout(suspect)")
+	}
+	if w.Holes > 0 {
+		labels = append(labels, "class:stalled-peer", fmt.Sprintf("stalled-peer:holes=%d", w.Holes))
+		if v.overlapHole > 0 {
+			labels = append(labels, "stalled-peer:healthy-calls-overlapped-stalled-send")
+		}
+		if v.judged == 0 {
+			labels = append(labels, "stalled-peer:nothing-judged(process-stall)")
+		}
+		if len(v.stallCand) > 0 {
+			labels = append(labels, "stalled-peer:suspect")
+		}
+		evid.R.Label("stalled-peer:black-hole-calls", int64(v.holeCalls))
+		evid.R.Label("stalled-peer:healthy-calls-judged", int64(v.judged))
+		evid.R.Label("stalled-peer:healthy-calls-not-judged(process-stall)", int64(v.judgeSkipped))
+		evid.R.Label("stalled-peer:healthy-calls-overlapping-stalled-send", int64(v.overlapHole))
+		evid.R.Label("stalled-peer:healthy-calls-bad", int64(v.healthyBad))
+	} else {
+		labels = append(labels, "class:race-steering")
 	}
 	evid.R.Case(string(key), nontrivial, func() any { return summarize(w, v) }, labels...)
 	evid.R.Label("calls", int64(v.nCalls))
@@ -1140,6 +1219,7 @@ func TestWorkload(t *testing.T) {
 			return // infrastructure, recorded as inconclusive
 		}
 		record(rt, "workload", w, v)
+		checkStalled(rt, "workload", w, v)
 		if v.suspects > 0 && !isKnown(sigLost) {
 			confirmSuspect(rt)
 		}
@@ -1259,4 +1339,15 @@ func TestRegressLateAndUnsolicited(t *testing.T) {
 		w.Unsol = []unsolPlan{{From: 1, To: 0, DelayUs: 1000}, {From: 2, To: 0, DelayUs: 20000}, {From: 0, To: 2, DelayUs: 5000}}
 		return w
 	}, 2)
+}
+
+// A send that stalls on one (black-hole) peer must not keep replies of healthy peers from being delivered.
+func TestRegressStalledPeer(t *testing.T) {
+	w := directedStalled()
+	v, err := runCase(w)
+	if err != nil {
+		return // infrastructure, recorded as inconclusive
+	}
+	record(t, "directed:stalled-peer", w, v)
+	checkStalled(t, "directed:stalled-peer", w, v)
 }
